@@ -1265,10 +1265,10 @@ func run(c *lib.Ctx) error {
 			N := int64(len(a.Ref().Segs))
 			segMS := (a.RefDur*1000 + a.RefTS*N/2) / (a.RefTS * N)
 			nAcc, nRej := 0, 0
-			for _, pph := range []int64{60, 5, 300, 900, 1200, 1800, 30, 3600, 7} { // 5: a 720 s period (period x 10 MHz needs more than 32 bits)
+			for _, pph := range []int64{60, 900, 5, 300, 1200, 1800, 30, 3600, 7} { // 900: a 4 s period (no multiple of a 3 s subtitle segment); 5: a 720 s period (period x 10 MHz needs more than 32 bits)
 				P := 3600 / pph
 				accepted := (P*1000)%segMS == 0
-				if (accepted && nAcc >= 3) || (!accepted && nRej >= 1) {
+				if (accepted && nAcc >= 4) || (!accepted && nRej >= 1) {
 					continue
 				}
 				if accepted {
